@@ -3,6 +3,7 @@
 //!   avsim --property C02 --tier quick|thorough [--seed N] [--scale F]
 //!   avsim --replay <file>
 //!   avsim --trace-hash --property C02 --runs N [--seed N]     (determinism selftest)
+mod drv_rayon;
 mod durable;
 mod envelope;
 mod exact;
@@ -35,6 +36,10 @@ fn main() {
     let args: Vec<String> = std::env::args().collect();
     if let Some(path) = arg(&args, "--replay") {
         std::process::exit(replay_file(&path));
+    }
+    if args.iter().any(|a| a == "--oracle-selftest") {
+        oracle_cases();
+        return;
     }
     let prop = match arg(&args, "--property") {
         Some(p) => p,
@@ -210,7 +215,8 @@ fn check_property(prop: &str, tier: Tier, seed: u64, scale: f64) -> i32 {
         if v.class == "harness" {
             harness_errors.push(format!("{}: {}", name, v.detail));
         } else {
-            by_class.entry(v.class.clone()).or_insert_with(|| (name.clone(), 0, trace.clone(), v.clone(), 1));
+            let scen = trace.get("scenario").and_then(|s| s.as_str()).unwrap_or(name).to_string();
+            by_class.entry(v.class.clone()).or_insert_with(|| (scen, 0, trace.clone(), v.clone(), 1));
         }
     }
     if !harness_errors.is_empty() {
@@ -315,4 +321,34 @@ fn check_property(prop: &str, tier: Tier, seed: u64, scale: f64) -> i32 {
     } else {
         0
     }
+}
+
+/// dump exact-oracle results for random samples; compared with python fractions by oracle_selftest.py
+fn oracle_cases() {
+    let mut rng = rng::Rng::new(20260928);
+    let mut out = vec![];
+    for i in 0..2000 {
+        let n = 1 + rng.usize(if i % 10 == 0 { 200 } else { 12 });
+        let (xs, _) = if i % 3 == 0 { gen::scalar_c17(&mut rng, n) } else { gen::scalar_c01(&mut rng, n) };
+        let ex = envelope::exact_scalar(&xs, 10);
+        let mut c = json!({
+            "data": xs.iter().map(|x| x.to_bits()).collect::<Vec<u64>>(),
+            "mean": ex.mean, "central": ex.central, "abs_central": ex.abs_central,
+        });
+        if i % 2 == 0 {
+            let (pairs, _, _) = gen::weighted_c08(&mut rng, n);
+            let ys: Vec<f64> = pairs.iter().map(|p| p.1).collect();
+            let data: Vec<(f64, f64)> = xs.iter().copied().zip(ys.iter().copied()).collect();
+            let ep = envelope::exact_pair(&data);
+            c["ys"] = json!(ys.iter().map(|x| x.to_bits()).collect::<Vec<u64>>());
+            c["cxy"] = json!(ep.cxy);
+            c["sum_w"] = json!(ep.sum_w);
+            c["sum_w2"] = json!(ep.sum_w2);
+            c["wmean"] = json!(if ep.wmean.is_nan() { 0.0 } else { ep.wmean });
+        }
+        out.push(c);
+    }
+    // non-finite numbers cannot be written as JSON: replace by 0 (python side skips overflow)
+    let txt = serde_json::to_string(&out).unwrap_or_else(|_| "[]".into());
+    println!("{}", txt);
 }
